@@ -771,3 +771,22 @@ Proof.
     assert (E : ((i - 1) * b + p - 1) / b = i - 1) by (symmetry; apply Z.div_unique with (r := p - 1); lia).
     rewrite E. f_equal; [f_equal; f_equal; lia|lia].
 Qed.
+
+Lemma enc_rel_mvar off m R i j : 1 <= j <= m -> enc_rel off m R (mvar off m i j) = R i j.
+Proof.
+  intros Hj. unfold enc_rel.
+  assert (E : mvar off m i j - off - 1 = (i - 1) * m + (j - 1)) by (unfold mvar; lia). rewrite E.
+  assert (Ed : ((i - 1) * m + (j - 1)) / m = i - 1) by (symmetry; apply Z.div_unique with (r := j - 1); lia).
+  assert (Em : ((i - 1) * m + (j - 1)) mod m = j - 1) by (symmetry; apply Z.mod_unique with (q := i - 1); lia).
+  rewrite Ed, Em. f_equal; lia.
+Qed.
+
+Lemma dec_map_some a off m i : (exists j, 1 <= j <= m /\ rel_of a off m i j = true) ->
+  1 <= dec_map a off m i <= m /\ rel_of a off m i (dec_map a off m i) = true.
+Proof.
+  intros [j0 [Hj0 T0]]. unfold dec_map.
+  destruct (find (fun j => a (mvar off m i j)) (rng m)) as [j1|] eqn:E.
+  - apply find_some in E as [Hj1 T1]. apply In_rng in Hj1. now split.
+  - exfalso. pose proof (find_none _ _ E j0 (proj2 (In_rng j0 m) Hj0)) as Hn. cbn beta in Hn.
+    unfold rel_of in T0. congruence.
+Qed.
